@@ -77,5 +77,6 @@ var HTMLSeeds = []string{
 	"&#", "&#x", "&#1", "&#x1", "&#1;", "&#x1;", "&", "&&", "&#;", "&#x;", "&#xg", "&#a", "&#1114111;", "&#x10FFFF;", "&#x1000FF;", "&#x100100;", "&#1052927;", "&#1052928;", "&#99999999999;",
 	"\x00", "<\x00", "<a\x00", "<a \x00b=c>", "<a b\x00=c>", "<a b=\x00c>", "<a b='\x00c'>", "<a\tb\n=\fc\r>", "<a\vb>", "<a b=c\vd>",
 	"<a href=\"java&#09;script:x\">", "<a href=\"java\x00script:x\">", "<a href=\"  &#32; javascript:x\">", "<a href=\"x javascript:\">", "<a href=\"&#x6A&#x41&#x56&#x41\">",
+	"<\xc5\xbfcript>", "<l\xc4\xb1nk>", "<x\xc5\xbf\xc5\xbf>", "<a \xc5\xbftyle=x>", "<a on\xc5\xbfubmit=x>", "<a xl\xc4\xb1nk=y>", "<\x00\xc5\xbfcript>", "<a hre\xc5\xbf=javascript:x>",
 	"<a b=c onclick=d>", "<a onclick>", "<a onclick >=d>", "<a onclick/=d>", "<a onclick= d>", "<a onclick=\nd>", "<a onclick=''>", "<a onclick=>", "<a onclick=\"\">",
 }
